@@ -23,6 +23,8 @@ pub struct Case {
     /// Some(flags): the same Ntlm object first answers a whole other handshake (negotiate + a challenge with these
     /// flags and another target-info block); the judged handshake is its second one
     earlier: Option<u32>,
+    /// Some((TargetInfoMaxLen, TargetNameMaxLen)) written over the honest values (receivers must ignore MaxLen)
+    maxlen: Option<(u16, u16)>,
 }
 
 pub struct C15 {
@@ -85,7 +87,7 @@ impl Prop for C15 {
     fn prepare(&mut self, tier: Tier) -> Result<(), String> {
         let strings = string_alphabet();
         let default_av: Vec<(u16, usize)> = vec![(rn::AV_NB_DOMAIN, 6), (rn::AV_NB_COMPUTER, 6), (rn::AV_DNS_DOMAIN, 18), (rn::AV_DNS_COMPUTER, 18), (rn::AV_TIMESTAMP, 8)];
-        let base = Case { domain: "DOM".into(), user: "user".into(), password: "S3cr3t-pässwörd".into(), via_hash: false, challenge: CHALLENGES[2], nonce: 2, av: default_av.clone(), flags: rn::DEFAULT_FLAGS, block: "base", earlier: None };
+        let base = Case { domain: "DOM".into(), user: "user".into(), password: "S3cr3t-pässwörd".into(), via_hash: false, challenge: CHALLENGES[2], nonce: 2, av: default_av.clone(), flags: rn::DEFAULT_FLAGS, block: "base", earlier: None, maxlen: None };
         let mut cs = vec![base.clone()];
         // strings: one dimension at a time, and all three together; password vs hash
         for s in &strings {
@@ -175,6 +177,14 @@ impl Prop for C15 {
                 cs.push(Case { av: vec![(rn::AV_DNS_TREE, bulk), (rn::AV_TIMESTAMP, 8)], domain: domain.to_string(), user: user.to_string(), block: "huge-target-info", ..base.clone() });
             }
         }
+        // MaxLen fields that differ from Len (MS-NLMP: set to Len by senders, ignored by receivers)
+        for ti_max in [0u16, 1, 8, 0x7FFF, 0xFFFF] {
+            for tn_max in [0u16, 5, 0xFFFF] {
+                for via_hash in [false, true] {
+                    cs.push(Case { maxlen: Some((ti_max, tn_max)), via_hash, block: "maxlen-differs-from-len", ..base.clone() });
+                }
+            }
+        }
         // OEM sessions with names that are not upper case already (ASCII only)
         for (domain, user) in [("Dom", "User"), ("dom", "user"), ("DOM", "USER"), ("", "user"), ("contoso.local", "Alice")] {
             for version in [true, false] {
@@ -230,7 +240,7 @@ impl Prop for C15 {
         json!({"idx": idx, "case": self.cases[idx as usize]})
     }
     fn rule(&self) -> String {
-        "cases = (domain, user, password | NT hash, server challenge, client nonce pattern, target-info block, negotiate flags). Strings: class^len for class in {a, é, 日, 😀} x len in {0,1,7,8,15,16,17,31,32,64}, every mixed string of <=3 code points over the four classes, the boundary code points of every UTF-8/UTF-16 encoding length (U+1, 7F, 80, 7FF, 800, D7FF, E000, FFFD, FFFF, 10000, 10001, FFFFF, 100000, 10FFFF) alone and between letters, a few practical names; varied one at a time and jointly (full user x domain and password x domain products in thorough); 4 challenges x 3 nonce patterns; every subset of the 9 optional AV ids with the timestamp at first/middle/last (every) position; every permutation of <=4 pairs including the timestamp; value lengths {0,2,16,510}; target information of 30000..65491 bytes (the largest the 16-bit NT response length can echo) with short and kilobyte-long names; OEM sessions with lower / mixed / upper case ASCII names; flags with/without VERSION and UNICODE and neutral bits; and a second handshake on the same Ntlm object for every ordered pair of (VERSION, UNICODE) flag sets. Each AUTHENTICATE is verified by the reference MS-NLMP server: field descriptors, NTProofStr, LMv2, key-exchange unwrap, MIC, names; and hash-based == password-based. Non-trivial: every case except the base one.".into()
+        "cases = (domain, user, password | NT hash, server challenge, client nonce pattern, target-info block, negotiate flags). Strings: class^len for class in {a, é, 日, 😀} x len in {0,1,7,8,15,16,17,31,32,64}, every mixed string of <=3 code points over the four classes, the boundary code points of every UTF-8/UTF-16 encoding length (U+1, 7F, 80, 7FF, 800, D7FF, E000, FFFD, FFFF, 10000, 10001, FFFFF, 100000, 10FFFF) alone and between letters, a few practical names; varied one at a time and jointly (full user x domain and password x domain products in thorough); 4 challenges x 3 nonce patterns; every subset of the 9 optional AV ids with the timestamp at first/middle/last (every) position; every permutation of <=4 pairs including the timestamp; value lengths {0,2,16,510}; target information of 30000..65491 bytes (the largest the 16-bit NT response length can echo) with short and kilobyte-long names; OEM sessions with lower / mixed / upper case ASCII names; TargetInfo / TargetName MaxLen fields set to 0, 1, 8, 0x7FFF, 0xFFFF while Len stays honest; flags with/without VERSION and UNICODE and neutral bits; and a second handshake on the same Ntlm object for every ordered pair of (VERSION, UNICODE) flag sets. Each AUTHENTICATE is verified by the reference MS-NLMP server: field descriptors, NTProofStr, LMv2, key-exchange unwrap, MIC, names; and hash-based == password-based. Non-trivial: every case except the base one.".into()
     }
     fn assumptions(&self) -> Vec<String> {
         vec![
@@ -246,11 +256,12 @@ impl Prop for C15 {
             challenge: c.challenge,
             target_name: "SRV".into(),
             av_pairs: c.av.iter().map(|(id, len)| (*id, av_value(*id, *len))).collect(),
+            maxlen_override: None,
         };
         let hash = rn::nt_hash(&c.password);
         let mut ntlm = if c.via_hash { Ntlm::from_hash(c.domain.clone(), c.user.clone(), &hash) } else { Ntlm::new(c.domain.clone(), c.user.clone(), c.password.clone()) };
         if let Some(f1) = c.earlier {
-            let cfg1 = ServerCfg { flags: f1, challenge: [0x5a; 8], target_name: "OTHER".into(), av_pairs: vec![(rn::AV_DNS_DOMAIN, av_value(rn::AV_DNS_DOMAIN, 6)), (rn::AV_TIMESTAMP, av_value(rn::AV_TIMESTAMP, 8))] };
+            let cfg1 = ServerCfg { flags: f1, challenge: [0x5a; 8], target_name: "OTHER".into(), av_pairs: vec![(rn::AV_DNS_DOMAIN, av_value(rn::AV_DNS_DOMAIN, 6)), (rn::AV_TIMESTAMP, av_value(rn::AV_TIMESTAMP, 8))], maxlen_override: None };
             if let Err(e) = ntlm.create_negotiate_message() {
                 return Outcome::fail("error", "negotiate-error", format!("{:?}", e));
             }
@@ -265,7 +276,12 @@ impl Prop for C15 {
         if let Err(e) = rn::parse_negotiate(&negotiate) {
             return Outcome::fail("mismatch", "negotiate-malformed", e);
         }
-        let challenge = rn::challenge_message(&cfg);
+        let mut challenge = rn::challenge_message(&cfg);
+        if let Some((ti_max, tn_max)) = c.maxlen {
+            // TargetNameFields at 12 (Len, MaxLen, offset), TargetInfoFields at 40
+            challenge[14..16].copy_from_slice(&tn_max.to_le_bytes());
+            challenge[42..44].copy_from_slice(&ti_max.to_le_bytes());
+        }
         let pattern: Vec<u8> = match c.nonce {
             0 => vec![0u8; 24],
             1 => vec![0xFF; 24],
